@@ -143,6 +143,8 @@ func execDist(s distScen, tag string, seed int64) ([]any, error) {
 	// the witness' key name goes into the target path as ONE escaped segment: names that need escaping are part of the menu
 	// (a note key name may contain anything but white space and '+')
 	wnames := []string{"witness.verif.example", "witness.verif.example/w1", "wit%2Fness%41", "witness?x=1#frag", "a/../witness", "w\u00eftness.example", "witness.verif.example", "./w"}
+	// ... or the same name as the first log's key (an operator using one name for both; different keys): a signature by the LOG then bears the witness' name
+	wnames = append(wnames, w.Logs[names[0]].Key.Name, w.Logs[names[0]].Key.Name)
 	wname := wnames[int(hashSeed(tag+"/wname", seed)%int64(len(wnames)))]
 	w.WitKey = ref.NewKey(wname, "witness")
 	_, witV, err := witnessSigners(w)
